@@ -194,12 +194,14 @@ pub mod atomics {
                 pub fn store(&self, v: $t, ord: Ordering) {
                     exec::switch(false);
                     mon::atomic_store(self.addr(), ord);
+                    exec::note_progress();
                     unsafe { *self.0.get() = v }
                 }
                 #[inline]
                 fn rmw(&self, ord: Ordering, f: impl FnOnce($t) -> $t) -> $t {
                     exec::switch(false);
                     mon::atomic_rmw(self.addr(), ord);
+                    exec::note_progress();
                     unsafe {
                         let old = *self.0.get();
                         *self.0.get() = f(old);
@@ -215,6 +217,7 @@ pub mod atomics {
                     let old = unsafe { *self.0.get() };
                     if old == cur {
                         mon::atomic_rmw(self.addr(), ok);
+                        exec::note_progress();
                         unsafe { *self.0.get() = new };
                         Ok(old)
                     } else {
